@@ -30,6 +30,8 @@ var (
 	worlds []*chainlab.World // world per history
 	kinds  []int             // process-wide parameters per history (see activate)
 	curKind = -1
+	// storesEpochBlock[k]: event k of the history being executed stored an epoch block in the crash-free run
+	storesEpochBlock []bool
 )
 
 // activate switches the process-wide parameters: 0 = 4 federation validators, the node's key is outside the validator
@@ -264,6 +266,8 @@ func runCase(h []int, _ json.RawMessage) (out xplore.Out) {
 	in.DB.ResetLog() // the log starts after genesis initialisation (crash during first start: see crash point 0 of a second log below)
 	states := []obs{observe(in.Node, in.DB)}
 	bounds := []int{0}
+	storedBefore := map[int]bool{0: true}
+	storesEpochBlock = []bool{false}
 	for _, ei := range hist {
 		in.Apply(ei)
 		if in.Hung {
@@ -273,6 +277,17 @@ func runCase(h []int, _ json.RawMessage) (out xplore.Out) {
 		}
 		states = append(states, observe(in.Node, in.DB))
 		bounds = append(bounds, in.DB.LogLen())
+		// epoch blocks this event stored (its own block or orphans it connected)
+		epoch := false
+		for i := range W.Blocks {
+			if in.Stored(i) && !storedBefore[i] {
+				storedBefore[i] = true
+				if i > 0 && W.Blocks[i].Height%W.Net.E == 0 {
+					epoch = true
+				}
+			}
+		}
+		storesEpochBlock = append(storesEpochBlock, epoch)
 	}
 	final := states[len(states)-1]
 	total := in.DB.LogLen()
@@ -441,7 +456,7 @@ func kindOf(hist []int, k int) string {
 	case chainlab.EvBlockSL:
 		return "block-with-links"
 	}
-	if curKind == 2 && W.Blocks[W.Events[hist[k-1]].Block].Height%W.Net.E == 0 {
+	if curKind == 2 && k < len(storesEpochBlock) && storesEpochBlock[k] {
 		// the node is the only validator: while it processes this block its own vote justifies the block's checkpoint
 		return "block-justified-by-own-vote"
 	}
